@@ -136,6 +136,7 @@ impl Shared {
             else if rr.alg != want.alg { "alg" }
             else if want.time != u64::MAX && rr.time.abs_diff(want.time) > 2 { "time" }
             else if want.time != u64::MAX && rr.fudge != want.fudge { "fudge" }
+            else if rr.x.cls != want.x.cls || rr.x.ttl != want.x.ttl { "class" }
             else if rr.oid != want.oid { "oid" }
             else if rr.err != want.err { "err" }
             else if rr.other != want.other { "other" }
@@ -204,9 +205,10 @@ impl Service<Vec<u8>, Option<Key>> for Scripted {
 fn rec_json(r: Result<&TsigRr, &[u8]>) -> Value {
     match r {
         Ok(t) => json!({"ty": "tsig", "name": json_bytes(&t.name), "alg": json_bytes(&t.alg), "time": t.time,
-            "fudge": t.fudge, "mac": json_bytes(&t.mac), "oid": t.oid, "err": t.err, "other": json_bytes(&t.other), "raw": []}),
+            "fudge": t.fudge, "mac": json_bytes(&t.mac), "oid": t.oid, "err": t.err, "other": json_bytes(&t.other), "raw": [],
+            "cls": t.x.cls, "ttl": t.x.ttl, "rdx": json_bytes(&t.x.rdx), "rdadj": t.x.rdadj, "oladj": t.x.oladj}),
         Err(raw) => json!({"ty": "other", "name": [], "alg": [], "time": 0, "fudge": 0, "mac": [], "oid": 0,
-            "err": 0, "other": [], "raw": json_bytes(raw)}),
+            "err": 0, "other": [], "raw": json_bytes(raw), "cls": 0, "ttl": 0, "rdx": [], "rdadj": 0, "oladj": 0}),
     }
 }
 
@@ -248,7 +250,7 @@ fn transport_phase(sh: &mut Shared, compose: &mut dyn FnMut(u16) -> Result<Vec<u
         wire = match compose(id) { Ok(w) => w, Err(e) => { sh.put(i, json!({"harness": e})); return; } };
         off = match last_record_offset(&wire) { Some(o) => o, None => { sh.put(i, json!({"harness": "composed request has no locatable last record"})); return; } };
         let pre = pre_of(&wire, off);
-        let want = TsigRr { name: name_wire(KEYNAME_C), alg: alg_wire(&alg), time: now_secs(), fudge: 300, mac: vec![], oid: id, err: 0, other: vec![] };
+        let want = TsigRr { x: Shape::default(), name: name_wire(KEYNAME_C), alg: alg_wire(&alg), time: now_secs(), fudge: 300, mac: vec![], oid: id, err: 0, other: vec![] };
         let mut o = sh.signed_obs(&op, &pre, &wire, off, &want, op["b"].as_u64().unwrap());
         if get_id(&wire) != id {
             o["rr"] = json!("header id");
@@ -386,9 +388,9 @@ fn transport_phase(sh: &mut Shared, compose: &mut dyn FnMut(u16) -> Result<Vec<u
                     sh.events.push(e);
                 }
                 let pre = pre_of(&w, o);
-                let rq = req_rr.clone().unwrap_or(TsigRr { name: vec![], alg: vec![], time: 0, fudge: 0, mac: vec![], oid: 0, err: 0, other: vec![] });
+                let rq = req_rr.clone().unwrap_or(TsigRr { x: Shape::default(), name: vec![], alg: vec![], time: 0, fudge: 0, mac: vec![], oid: 0, err: 0, other: vec![] });
                 let code = match res.as_str() { "BADSIG" => 16, "BADKEY" => 17, "BADTRUNC" => 22, "BADTIME" => 18, _ => 1 };
-                let want = TsigRr { name: rq.name.clone(), alg: rq.alg.clone(), time: u64::MAX, fudge: 0, mac: vec![], oid: req_id, err: code, other: vec![] };
+                let want = TsigRr { x: Shape { cls: rq.x.cls, ttl: rq.x.ttl, ..Shape::default() }, name: rq.name.clone(), alg: rq.alg.clone(), time: u64::MAX, fudge: 0, mac: vec![], oid: req_id, err: code, other: vec![] };
                 let obs = sh.signed_obs(&op, &pre, &w, o, &want, 1);
                 sh.put(i, obs);
                 sh.to_client.push_back(ToCli { wire: w, pre, signed: true, off: o, tampered: false, sev: None });
@@ -415,7 +417,7 @@ fn transport_phase(sh: &mut Shared, compose: &mut dyn FnMut(u16) -> Result<Vec<u
                 };
                 let o = match last_record_offset(&w) { Some(o) => o, None => { sh.put(i, json!({"res": "Ok", "mac": "norr", "rr": "unsigned"})); i += 1; let l = w.len(); sh.to_client.push_back(ToCli { wire: w.clone(), pre: w, signed: false, off: l, tampered: false, sev: None }); continue; } };
                 let pre = pre_of(&w, o);
-                let want = TsigRr { name: name_wire(KEYNAME_S), alg: alg_wire(&alg), time: now_secs(), fudge: 300, mac: vec![], oid: get_id(&pre), err: 0, other: vec![] };
+                let want = TsigRr { x: Shape::default(), name: name_wire(KEYNAME_S), alg: alg_wire(&alg), time: now_secs(), fudge: 300, mac: vec![], oid: get_id(&pre), err: 0, other: vec![] };
                 let obs = sh.signed_obs(&op, &pre, &w, o, &want, op["b"].as_u64().unwrap());
                 sh.put(i, obs);
                 let mut sev = None;
@@ -602,7 +604,7 @@ fn run_case_rec(input: &Value, record: bool) -> (Value, Vec<Value>) {
                                 let a = m.as_slice();
                                 after = a.to_vec();
                                 raw = "Ok".into();
-                                json!({"res": "Ok", "restored": t.signed && a.len() >= t.pre.len() && a[..t.pre.len()] == t.pre[..], "left": 0})
+                                json!({"res": allow(op, "Ok"), "restored": t.signed && a.len() >= t.pre.len() && a[..t.pre.len()] == t.pre[..], "left": 0})
                             }
                             (Ok(None), _) => json!({"res": "EndOfStream"}),
                             (Err(e), _) => { raw = err_name(&e); json!({"res": allow(op, &err_name(&e)), "restored": false, "left": 0}) }
@@ -653,7 +655,7 @@ fn run_case_rec(input: &Value, record: bool) -> (Value, Vec<Value>) {
                             let a = m.as_slice();
                             after = a.to_vec();
                             raw = "Ok".into();
-                            json!({"res": "Ok", "restored": t.signed && a.len() >= t.pre.len() && a[..t.pre.len()] == t.pre[..], "left": 0})
+                            json!({"res": allow(op, "Ok"), "restored": t.signed && a.len() >= t.pre.len() && a[..t.pre.len()] == t.pre[..], "left": 0})
                         }
                         (Err(e), _) => { raw = err_name(&e); json!({"res": allow(op, &err_name(&e)), "restored": false, "left": 0}) }
                     };
@@ -721,7 +723,11 @@ fn record_main(path: &str, seed: u64, max: u64) {
         let adv = |rng: &mut Rng, req: bool| -> Option<Value> {
             if !rng.chance(1, 3) { return None; }
             let kinds = ["FlipBody", "FlipMac", "TruncShort", "ExtendMac", "RenameKey", "RecaseKey", "SwapAlg", "ChangeOrigId",
-                         "RewriteId", "ShiftTime", "SetErr", "SetOther", "SetOther6", "StripTsig", "MoveTsig", "DupTsig", "ForgeBadKey"];
+                         "RewriteId", "ShiftTime", "SetErr", "SetOther", "SetOther6", "StripTsig", "MoveTsig", "DupTsig", "ForgeBadKey",
+                         // the names of the record as names, its CLASS / TTL (uncompressed forms: the
+                         // recorder's structured view of a message is a re-parse of its octets)
+                         "AlgExtra", "AlgDouble", "AlgSigAlg", "AlgRoot", "AlgPrefix", "AlgUpper", "KeyExtra", "KeyFewer", "KeyRoot",
+                         "ClassIn", "ClassNone", "TtlOne"];
             let k = *rng.pick(&kinds);
             if req && k == "ForgeBadKey" { return None; }
             let arg: Value = match k {
